@@ -1,7 +1,7 @@
 (* Protocol entry point of the extracted model: one command + hex arguments in, one JSON line out. *)
 From Coq Require Import String Ascii List ZArith NArith Bool.
 From SDP Require Import Base PyStr Regex Json Codec LR RealTables Lexer Actions Parse Engine Seq Output Pre Api Entity Table Alter.
-From SDP Require TypeDom TypeObj.
+From SDP Require TypeDom TypeObj SchemaX.
 Import ListNotations.
 Open Scope string_scope.
 
@@ -115,6 +115,14 @@ Definition dispatch (cmd : string) (args : list string) : string :=
         JObj [("wf", JBool (TypeObj.wf (String.eqb norm "1") o));
               ("lexemes", JArr (map (fun lx => JArr [JStr (fst lx); JStr (snd lx)]) (TypeObj.lexemes o)));
               ("denote", json_of_pyval (TypeObj.denote (String.eqb norm "1") o))]
+      end
+  | "sx_spec", norm :: rest =>
+      match SchemaX.schx_of_args rest with
+      | None => JObj [("unsupported", JStr "bad schema args")]
+      | Some x =>
+        JObj [("wf", JBool (SchemaX.wf (String.eqb norm "1") x));
+              ("lexemes", JArr (map (fun lx => JArr [JStr (fst lx); JStr (snd lx)]) (SchemaX.lexemes x)));
+              ("denote", json_of_pyval (SchemaX.denote (String.eqb norm "1") x))]
       end
   | "seq_spec", norm :: rest =>
       match seq_of_args rest with
